@@ -12,7 +12,7 @@ def run(tier, seed, replay=None):
     r = vlib.tlc("AnnounceMsg", ("c10.cfg", vlib.cfg_text(c, INV)), timeout=3000, tag="c10")
     ck.add_tlc("AnnounceMsg", r, "every message (0..%d addresses of 3 classes, 3 extra-data size classes, with/without original peer) x every token-level mutation" % c["MaxAddrs"])
     rep = vlib.run_harness(binary, ["c10", "-cases", os.path.join(r.workdir, "c10_cases.ndjson")], timeout=7000)
-    if rep.get("extra", {}).get("read_error") or rep["inconclusive"] > 5:      # a gossip message lost once on a busy machine is repeated, not judged
+    if rep.get("extra", {}).get("read_error") or (rep["inconclusive"] > 5 and not rep["divergences"]):      # a gossip message lost once on a busy machine is repeated, not judged
         raise vlib.Infra("c10 harness: %s" % rep.get("extra"))
     ck.add_report(rep)
     ck.cov["rule"] = ("one case per TLC state, token streams concretised to CBOR bytes (CIDs of three codecs / hash functions, real multiaddr bytes, an "
